@@ -273,6 +273,13 @@ def walk_values(x, acc):
             walk_values(y, acc)
 
 
+def _fallback_fn():
+    raise AssertionError("the fallback value was called")
+
+
+_FALLBACKS = [dict, list, _fallback_fn, Missing, MISSING, None, 0, "", len]
+
+
 def check_predicates(out: Outcome, x):
     real = x is MISSING
     sentinel = object()
@@ -284,6 +291,11 @@ def check_predicates(out: Outcome, x):
         w = when_missing(x, sentinel)
         if (w is sentinel) != real or (not real and w is not x):
             out.violate("pred", "C20.pred/when_missing", repr(x))
+        # the fallback value is a VALUE, whatever it is: callables, classes, falsy objects, MISSING itself, the Missing type
+        for fallback in _FALLBACKS:
+            w = when_missing(x, fallback)
+            if (w is not (fallback if real else x)):
+                out.violate("pred", "C20.pred/when_missing/fallback-not-returned-as-it-is", f"when_missing({x!r}, {fallback!r}) -> {w!r}")
         eq = MISSING == x
         if bool(eq) != real:
             out.violate("eq", "C20.eq/MISSING==x", repr(x))
@@ -299,6 +311,13 @@ def check_predicates(out: Outcome, x):
         out.violate("pred", f"C20.pred/raised/{type(exc).__name__}", f"{x!r}: {exc!r}")
 
 
+class _Impostor:
+    __slots__ = ()
+
+    def __bool__(self):
+        return True
+
+
 def check_singleton_basics(out: Outcome):
     if Missing() is not MISSING or type(MISSING)() is not MISSING:
         out.violate("identity", "C20.identity/call/second-instance", "Missing() is not MISSING")
@@ -308,6 +327,8 @@ def check_singleton_basics(out: Outcome):
         ("getattr", lambda: getattr(MISSING, "anything")),
         ("setattr", lambda: setattr(MISSING, "anything", 1)),
         ("delattr", lambda: delattr(MISSING, "anything")),
+        ("setattr-dunder", lambda: setattr(MISSING, "__doc__", "x")),
+        ("delattr-dunder", lambda: delattr(MISSING, "__doc__")),
     ):
         try:
             fn()
@@ -316,6 +337,14 @@ def check_singleton_basics(out: Outcome):
             pass
         except Exception as exc:  # noqa: BLE001
             out.violate("attr", f"C20.attr/{what}-wrong-error", repr(exc))
+    # the one attribute every object lets you assign: its class (same empty layout, so Python itself would allow it)
+    try:
+        MISSING.__class__ = _Impostor
+    except (AttributeError, TypeError):
+        pass
+    else:
+        object.__setattr__(MISSING, "__class__", Missing)  # undo, so that later cases still see the real thing
+        out.violate("attr", "C20.attr/class-reassignment-accepted", "MISSING.__class__ = Impostor")
 
 
 def run_case(case) -> Outcome:
